@@ -91,6 +91,30 @@ func c08Fixed(c *Ctx) ([]*zr.Program, []string) {
 		zr.LetS("丙器", zr.New{Class: "计数器"}), showC("丙器"), zr.ExprStmt{E: mc("丙器", "增")}, showC("甲器"), showC("乙器"), showC("丙器"),
 		zr.ExprStmt{E: zr.MCall{Recv: zr.Member{Recv: zr.N("乙器"), Prop: "次"}, Chain: []zr.CallPart{{Fn: "自减", Args: []zr.Expr{intLit(5)}}}}}, showC("甲器"), showC("乙器"), showC("丙器"),
 		zr.Return{E: zr.Member{Recv: zr.New{Class: "计数器"}, Prop: "次"}})
+	// the value a call yields (and binds with 得到) is the value at that moment: what the object
+	// does to its own property afterwards (in place) must not show through the yielded name
+	{
+		yCall := func(m, y string) zr.Stmt {
+			return zr.ExprStmt{E: zr.MCall{Recv: zr.N("甲器"), Chain: []zr.CallPart{{Fn: m}}, Yield: y}}
+		}
+		getter := func(prop string) *zr.FuncDef {
+			return &zr.FuncDef{Name: "取" + prop, Body: []zr.Stmt{zr.Return{E: zr.ThisProp{Prop: prop}}}}
+		}
+		c2 := zr.ClassDef{Name: "计数器", Props: []zr.PropDef{{Name: "次", Val: intLit(0)}, {Name: "名", Val: zr.S("器")}, {Name: "记", Val: zr.ListLit{Items: []zr.Expr{intLit(1), intLit(2)}}}, {Name: "表", Val: zr.DictLit{Keys: []string{"k"}, KeyForm: []int{0}, Vals: []zr.Expr{intLit(1)}}}},
+			Methods: append(append([]*zr.FuncDef{}, counter.Methods...), getter("次"), getter("记"), getter("表"),
+				&zr.FuncDef{Name: "动", Body: []zr.Stmt{
+					zr.ExprStmt{E: zr.MCall{Recv: zr.ThisProp{Prop: "次"}, Chain: []zr.CallPart{{Fn: "自增", Args: []zr.Expr{intLit(7)}}}}},
+					zr.ExprStmt{E: zr.MCall{Recv: zr.ThisProp{Prop: "记"}, Chain: []zr.CallPart{{Fn: "后增", Args: []zr.Expr{intLit(9)}}}}},
+					zr.Set(zr.Index{Recv: zr.ThisProp{Prop: "表"}, Idx: zr.S("k")}, intLit(5)),
+					zr.Return{E: intLit(0)}}})}
+		add("obj/yield-is-a-snapshot", c2, zr.LetS("甲器", zr.New{Class: "计数器"}),
+			yCall("取次", "果次"), yCall("取记", "果记"), yCall("取表", "果表"), zr.LetS("抄次", zr.CallE("显示")),
+			zr.Show(zr.S("before"), zr.N("果次"), zr.N("果记"), zr.N("果表")),
+			zr.ExprStmt{E: mc("甲器", "动")}, zr.ExprStmt{E: mc("甲器", "动")},
+			zr.Show(zr.S("after"), zr.N("果次"), zr.N("果记"), zr.N("果表")),
+			zr.Show(zr.S("object"), zr.Member{Recv: zr.N("甲器"), Prop: "次"}, zr.Member{Recv: zr.N("甲器"), Prop: "记"}, zr.Member{Recv: zr.N("甲器"), Prop: "表"}),
+			zr.Return{E: zr.Bin{Op: "*", L: zr.N("果次"), R: intLit(8)}})
+	}
 	for given := 0; given <= 3; given++ {
 		args := []zr.Expr{}
 		for i := 0; i < given; i++ {
